@@ -426,8 +426,9 @@ class Precede:
     Intra: S is unreachable from the function entry once guard blocks are removed.
     Inter: a function with a locally unguarded site is demanding; its call sites become sites."""
 
-    def __init__(self, prog, cg, is_s, is_g, scope, g_summaries=True):
+    def __init__(self, prog, cg, is_s, is_g, scope, g_summaries=True, dead=None):
         self.prog = prog; self.cg = cg; self.is_s = is_s; self.is_g = is_g
+        self.dead = dead or (lambda fn: frozenset())
         self.scope = list(scope)
         self.guarding = set()     # functions that always pass G before returning Ok
         self.demands = {}         # fn path -> list of (origin_fn, origin_callee, chain)
@@ -493,7 +494,7 @@ class Precede:
                         # blocks reachable from entry without completing a guard call
                         # loop model: a loop entered from outside iterates at least once, so a guard
                         # applied per element of a collection covers a later loop over the same collection
-                        reach, _ = search(f, [0], gb, loop_model=True)
+                        reach, _ = search(f, [0], gb, loop_model=True, dead_edges=self.dead(f))
                         # a guard block itself is "reached" but its successors only via other paths
                     # the site block is unguarded if reachable avoiding guards; a block that is both
                     # guard and site cannot happen (different callees)
